@@ -186,7 +186,7 @@ def judge(exp, out, strict=False):
             return "raised"
         return judge_rl(exp, out, strict) if te == "rl" else judge_rlrows(exp, out, strict)
     if to == "raised":
-        if te in ("partial", "pcol") and not all(m == 1 for m in exp[3]):
-            return "unspec"
+        if te in ("partial", "pcol") and not any(m == 1 for m in exp[3]):
+            return "unspec"                      # nothing is claimed (no non-empty row): a refusal is as good as any answer
         return "raised"
     return judge_value(exp, out, strict)
